@@ -175,6 +175,10 @@ func (c *Ctx) calleeEff(call ssa.CallInstruction) Eff {
 		if c.IsLib(g) {
 			e |= c.eff(g)
 		}
+	} else {
+		for _, g := range c.localClosureTargets(call) {
+			e |= c.eff(g)
+		}
 	}
 	return e
 }
